@@ -107,8 +107,15 @@ def build(sig, kind, annotated=False):
       exec('def f(%s):\n%s  return dict(locals())\n' % (', '.join(ps), ''.join(chk)), ns)
       orig = ns['f']
       body = ''.join('  %s: int%s\n' % (n, '' if d is None else ' = %d' % d) for n, d in sig['pos'])
-      exec('class S(pg.Functor):\n%s  def _call(self):\n    return dict(%s)\n' % (body, ', '.join('%s=self.%s' % (n, n) for n, _ in sig['pos'])), ns)
+      members = 'dict(%s)' % ', '.join('%s=self.%s' % (n, n) for n, _ in sig['pos'])
+      inner = ('self(%s=99, override_args=True)' % sig['pos'][0][0]) if sig['pos'] else 'self()'
+      ns['_REENTER'] = [False]; ns['_DEPTH'] = [0]
+      # _call may re-enter the functor (once); what it reads before and after the inner call must be the same
+      exec('class S(pg.Functor):\n%s  def _call(self):\n    before = %s\n'
+           '    if _REENTER[0] and _DEPTH[0] == 0:\n      _DEPTH[0] += 1\n      try:\n        %s\n      except Exception:\n        pass\n      finally:\n        _DEPTH[0] -= 1\n'
+           '    after = %s\n    if before != after:\n      raise AssertionError(\'the members _call reads changed while it ran\')\n    return after\n' % (body, members, inner, members), ns)
       sym = ns['S']
+      sym._c18_ns = ns
     elif kind == 'class':
       exec(cls_source(sig, annotated), ns)
       orig = ns['C']
@@ -203,6 +210,50 @@ def attrs_of(sig, x):
   return enc_kvs(items), [enc_val(v) for v in vattr]
 
 # ---- implementation drivers ----------------------------------------------------------------------------
+_HOLDER = []
+def holder_class():
+  """A pg.Object with a field that holds the functor (and another field for batched rebinds)."""
+  import pyglove as pg
+  if not _HOLDER:
+    class C18Holder(pg.Object):
+      fn: pg.typing.Any()
+      z: int = 0
+    _HOLDER.append(C18Holder)
+  return _HOLDER[0]
+
+def make_container(kind, x):
+  import pyglove as pg
+  if kind == 'dict': return pg.Dict(fn=x, other=0)
+  if kind == 'list': return pg.List([x, 0])
+  if kind == 'object': return holder_class()(fn=x)
+  return None
+
+def child_of(kind, root):
+  return root.fn if kind in ('dict', 'object') else root[0]
+
+def bind_later(case, i, x, root, k, v):
+  """One later binding, by the route case['routes'][i]: on the functor itself (rebind / attribute assignment) or by rebinding
+  the container that holds it with a deep path, alone or batched with another path, with change notification on or off."""
+  import pyglove as pg
+  r = case['routes'][i] if case.get('routes') else {}
+  route = r.get('route') or ('setattr' if case.get('setattr') else 'rebind')
+  fields = [n for n, _ in case['sig']['pos'] + case['sig']['kwonly']] + [case['sig']['varargs']]
+  with pg.notify_on_change(bool(r.get('notify', True))):
+    if route == 'ancestor' and root is not None:
+      kind = case['container']
+      prefix = {'dict': 'fn.', 'object': 'fn.', 'list': '[0].'}[kind]
+      upd = {prefix + k: v}
+      if r.get('batch'):
+        upd[{'dict': 'other', 'object': 'z', 'list': '[1]'}[kind]] = i + 1
+      root.rebind(upd, raise_on_no_change=False)
+    elif route == 'setattr' and k in fields:
+      setattr(x, k, v)
+    else:
+      x.rebind({k: v}, raise_on_no_change=False)
+
+def late_notify(case, i):
+  return bool(case['routes'][i].get('notify', True)) if case.get('routes') else True
+
 def run_functor_impl(case, typecheck=True):
   """Returns (tree, x) for a functor case."""
   import pyglove as pg
@@ -215,16 +266,23 @@ def run_functor_impl(case, typecheck=True):
       x = F(*case['ctor'][0], **dict(case['ctor'][1]), override_args=case['ov'], ignore_extra_args=case['ie'])
     except Exception as e:
       return [[1, 0, err_kind(e)], []], None
+    if case['kind'] == 'subclassed':
+      F._c18_ns['_REENTER'][0] = bool(case.get('reenter'))
+    root = make_container(case.get('container'), x)
+    if root is not None:
+      x = child_of(case['container'], root)
     for i, (k, v) in enumerate(case['lates']):
       try:
-        if case.get('setattr') and k in [n for n, _ in sig['pos'] + sig['kwonly']] + [sig['varargs']]:
-          setattr(x, k, v)
-        else:
-          x.rebind({k: v}, raise_on_no_change=False)
+        bind_later(case, i, x, root, k, v)
       except Exception as e:
         return [[1, 1, err_kind(e)], []], None
     if case['post'] == 1:
+      original = x
       x = x.clone(deep=bool(case.get('deep')))
+      if case.get('decoy'):
+        # the clone must be independent: bind something on the original afterwards
+        try: original.rebind({case['decoy'][0]: case['decoy'][1]}, raise_on_no_change=False)
+        except Exception: pass
     elif case['post'] == 2:
       x = pg.from_json(json.loads(json.dumps(x.to_json()))) if not case.get('json_str') else pg.from_json_str(x.to_json_str())
     attrs, vattr = attrs_of(sig, x)
@@ -248,9 +306,12 @@ def run_class_impl(case):
     x = (X.partial if case['partial'] else X)(*case['ctor'][0], **dict(case['ctor'][1]))
   except Exception as e:
     return [[1, 0, err_kind(e)], []], None
-  for k, v in case['lates']:
+  root = make_container(case.get('container'), x)
+  if root is not None:
+    x = child_of(case['container'], root)
+  for i, (k, v) in enumerate(case['lates']):
     try:
-      x.rebind({k: v}, raise_on_no_change=False)
+      bind_later(case, i, x, root, k, v)
     except Exception as e:
       return [[1, 1, err_kind(e)], []], None
   post = case.get('post', 0)
@@ -385,6 +446,10 @@ def features(case, with_call=True):
       named, var = supply(sig, named, var, ([], [(k, v)]), True, False)
   except Conflict:
     pass
+  if case.get('reenter'): f.append('re-entrant-call')
+  if case.get('routes') and any(not r.get('notify', True) for r in case['routes']): f.append('notification-off')
+  if case.get('routes') and any(r.get('route') == 'ancestor' for r in case['routes']) and case.get('container'): f.append('bound-through-%s' % case['container'])
+  if case.get('post') == 1 and case.get('decoy'): f.append('original-rebound-after-clone')
   if sig.get('posonly') and set(n for n, _ in sig['pos'][:sig['posonly']]) & set(k for k, _ in case['ctor'][1] + case['lates'] + (list(call[1]))): f.append('positional-only-bound-by-name')
   if sig.get('posonly'): f.append('positional-only-parameters')
   if va and (any(k == va for k, _ in case['ctor'][1]) or any(k == va for k, _ in case['lates'])): f.append('varargs-bound-by-name')
@@ -471,7 +536,20 @@ def gen_functor_case(rng, sig, kind=None):
         c['call'][1].append((n, rng.choice(VALS)))
   c['post'] = rng.choice([0, 0, 0, 1, 2])
   c['deep'] = rng.random() < .5; c['json_str'] = rng.random() < .5
+  add_routes(rng, c)
+  if c['post'] == 1 and rng.random() < .5:
+    names = [n for n, _ in sig['pos'] + sig['kwonly']] + (['zz'] if sig['varkw'] else [])
+    if names: c['decoy'] = (rng.choice(names), 77)
   return c
+
+def add_routes(rng, c, notify_off=True):
+  """The route of every later binding: on the object itself or through the container that holds it."""
+  c['container'] = rng.choice([None, None, 'dict', 'list', 'object']) if c['lates'] else None
+  c['routes'] = []
+  for _ in c['lates']:
+    # symbolized classes do not allow symbolic assignment (x.k = v is a plain attribute there): rebind routes only
+    route = rng.choice(['rebind'] + (['setattr'] if c['kind'] not in ('class', 'subclass') else []) + (['ancestor'] * 3 if c['container'] else []))
+    c['routes'].append(dict(route=route, batch=rng.random() < .4, notify=not (notify_off and rng.random() < .15)))
 
 def gen_subclassed_case(rng):
   """A pg.Functor subclass: positional fields only, defaults anywhere, integer values."""
@@ -480,6 +558,7 @@ def gen_subclassed_case(rng):
   c = gen_functor_case(rng, sig, kind='subclassed')
   fix = lambda kv: [(k, v if isinstance(v, int) else 3) for k, v in kv]
   c['ctor'] = (c['ctor'][0], fix(c['ctor'][1])); c['call'] = (c['call'][0], fix(c['call'][1])); c['lates'] = fix(c['lates'])
+  c['reenter'] = rng.random() < .5
   return c
 
 def gen_class_case(rng, sig):
@@ -489,6 +568,7 @@ def gen_class_case(rng, sig):
   c['lates'] = gen_lates(rng, sig, rng.choice([0, 0, 1, 1, 2]), name_posonly=byname)
   c['partial'] = rng.random() < .5
   c['post'] = rng.choice([0, 0, 0, 1, 2]); c['deep'] = rng.random() < .5
+  add_routes(rng, c, notify_off=False)       # without notification the user __init__ is not re-run (documented), nothing to compare
   return c
 
 def gen_subclass_case(rng, pair, sigb, sigd, order):
@@ -537,7 +617,7 @@ def case_tree(case, q):
   if case['kind'] in ('class', 'subclass'):
     return [1, s, enc_call(case['ctor']), int(case['partial']), [[NAMES[k], enc_val(v)] for k, v in case['lates']]]
   return [0, [int(q['noop_rebind'])], s, enc_call(case['ctor']), [int(case['ov']), int(case['ie'])],
-          [[NAMES[k], enc_val(v)] for k, v in case['lates']], enc_call(case['call']),
+          [[NAMES[k], enc_val(v), int(late_notify(case, i))] for i, (k, v) in enumerate(case['lates'])], enc_call(case['call']),
           [trlib.opt(case['ovo'], int), trlib.opt(case['ieo'], int)], case['post']]
 
 def eff_flags(case):
@@ -595,9 +675,11 @@ def oracle_functor(ctx, case, out, hit):
         hit('C18/reported/sym_init_args/%s' % disc, '%s: sym_init_args reports %s / *%s, effective arguments are %s / *%s' % (describe(case, False), st[0], st[1], e_attrs, e_vattr))
       if st[2] != e_spec:
         hit('C18/reported/specified_args/%s' % disc, '%s: specified_args reports %s, arguments supplied are %s' % (describe(case, False), names_of(st[2]), names_of(e_spec)))
-      if st[3] != e_dflt:
+      silent = bool(case.get('routes')) and any(not r.get('notify', True) for r in case['routes'])   # skip_notification: "use it only when
+      # the rebind does not invalidate internal states" - the default / non-default classification is such a state
+      if st[3] != e_dflt and not silent:
         hit('C18/reported/default_args/%s' % disc, '%s: default_args reports %s, arguments at their default are %s' % (describe(case, False), names_of(st[3]), names_of(e_dflt)))
-      if st[4] != e_nond:
+      if st[4] != e_nond and not silent:
         hit('C18/reported/non_default_args/%s' % disc, '%s: non_default_args reports %s, arguments off their default are %s' % (describe(case, False), names_of(st[4]), names_of(e_nond)))
 
 def typecheck_variant_hit(c, out):
@@ -663,8 +745,17 @@ def describe(case, with_call=True):
     s += ' override_args=%s ignore_extra_args=%s' % (case['ov'], case['ie'])
   else:
     s += ' partial=%s' % case['partial']
-  for k, v in case['lates']:
-    s += ' .rebind(%s=%r)' % (k, v)
+  for i, (k, v) in enumerate(case['lates']):
+    r = case['routes'][i] if case.get('routes') else {}
+    if r.get('route') == 'ancestor' and case.get('container'):
+      s += ' <%s holding it>.rebind({...%s: %r%s})' % (case['container'], k, v, ', other path' if r.get('batch') else '')
+    elif r.get('route') == 'setattr' or (not r and case.get('setattr')):
+      s += ' .%s = %r' % (k, v)
+    else:
+      s += ' .rebind(%s=%r)' % (k, v)
+    if not r.get('notify', True): s += '[notification off]'
+  if case.get('decoy') and case.get('post') == 1: s += ' (original.rebind(%s=%r) after the clone)' % tuple(case['decoy'])
+  if case.get('reenter'): s += ' (_call re-enters the functor)'
   if case.get('post') == 1: s += ' .clone()'
   if case.get('post') == 2: s += ' from_json(to_json())'
   if with_call and not is_cls:
@@ -820,6 +911,8 @@ def run(ctx):
     ctx.hist('functor_outcome', 'bind-error' if out[0][0] == 1 else ('returns' if out[1][0] == 0 else show(out[1])))
     ctx.hist('supply_routes', '%s%s%s' % ('C' if c['ctor'][0] or c['ctor'][1] else '-', 'L' if c['lates'] else '-', 'A' if c['call'][0] or c['call'][1] else '-'))
     ctx.hist('post_step', {0: 'none', 1: 'clone', 2: 'json'}[c['post']])
+    for r in c.get('routes') or []:
+      ctx.hist('late_binding_route', '%s%s%s' % (r['route'] if r['route'] != 'ancestor' else 'through-' + str(c.get('container')), '+batched' if r['route'] == 'ancestor' and r['batch'] else '', '' if r['notify'] else ' (notification off)'))
     ctx.hist('flags', 'ov=%s ie=%s' % (ov, ie))
     ctx.hist('signature_shape', '%dpos%s%s %dkwonly%s' % (len(c['sig']['pos']), '(%d/)' % c['sig']['posonly'] if c['sig'].get('posonly') else '', '+*' if c['sig']['varargs'] else '', len(c['sig']['kwonly']), '+**' if c['sig']['varkw'] else ''))
     oracle_functor(ctx, c, out, hitter(c))
